@@ -132,6 +132,11 @@ type TreeOpts struct {
 	SRID func(*rapid.T) int
 	// PEmpty is the percentage of empty components (default 20).
 	PEmpty int
+	// LongPct is the percentage of lines/rings that are long (65..LongMax
+	// coordinates, default LongMax 300): size thresholds inside the code under
+	// test (block sizes, switches to another algorithm) sit far above MaxPts.
+	LongPct int
+	LongMax int
 }
 
 // AllKinds lists the kinds Tree can produce.
@@ -194,6 +199,13 @@ func Line(t *rapid.T, o *TreeOpts, stride int) [][]model.F {
 		return [][]model.F{}
 	}
 	n := rapid.IntRange(1, o.MaxPts).Draw(t, "npts")
+	if o.LongPct > 0 && pct(t, o.LongPct, "longline") {
+		lm := o.LongMax
+		if lm == 0 {
+			lm = 300
+		}
+		n = rapid.IntRange(65, lm).Draw(t, "nlong")
+	}
 	if o.Valid && n < 2 {
 		n = 2
 	}
@@ -211,6 +223,13 @@ func Ring(t *rapid.T, o *TreeOpts, stride int) [][]model.F {
 		return Line(t, o, stride)
 	}
 	n := rapid.IntRange(3, max(3, o.MaxPts)).Draw(t, "nring")
+	if o.LongPct > 0 && pct(t, o.LongPct, "longring") {
+		lm := o.LongMax
+		if lm == 0 {
+			lm = 300
+		}
+		n = rapid.IntRange(65, lm).Draw(t, "nlongring")
+	}
 	out := make([][]model.F, n+1)
 	for i := 0; i < n; i++ {
 		out[i] = Coord(t, stride, o.Floats)
